@@ -93,6 +93,15 @@ func DecodeSsixSR(hdr BoxHeader, startPos uint64, sr bits.SliceReader) (Box, err
 		}
 		b.SubSegments[i] = subSeg
 	}
+	// Payload bytes behind the last subsegment are not part of the box content. They must still be consumed,
+	// since a slice reader that is left inside the box makes the enclosing container parse them as boxes.
+	nrRead := 8
+	for _, subSeg := range b.SubSegments {
+		nrRead += 4 + 4*len(subSeg.Ranges)
+	}
+	if nrLeft := hdr.payloadLen() - nrRead; nrLeft > 0 {
+		sr.SkipBytes(nrLeft)
+	}
 	return b, sr.AccError()
 }
 
